@@ -3,27 +3,44 @@
 //
 //   exe --table          one line per port:
 //                        <id> <kind> <storage> <len> <pattern-hex> <meta-hex> <init-state>
-//   exe <ops-file>       op line:  <R|N> <id> <kind> <storage> <len> <pattern-hex> <meta-hex> <init-state> <msg>...
-//                        (the harness uses <R|N>, <id> and the messages, and checks the
+//   exe <ops-file>       op line:  <prefix-hex> <id> <kind> <storage> <len> <pattern-hex> <meta-hex> <init-state> <msg>...
+//                        <prefix-hex> = address of the object the port belongs to: `/` (the port table is
+//                        dispatched directly), `/sub/`, `/flat/` or `/<200 letters>/` (through Top::ports and rRecur)
+//                        (the harness uses the prefix, <id> and the messages, and checks the
 //                        description tokens against its own table; the driver uses the description)
 //     msg tokens:  [<digits>@]<arg>[+<arg>...]   arg = q | i<dec> | c<dec> | f<hex8> | T | F | s<hex> | S<hex>
 //     (q = no argument; <digits>@ = array index text appended to the port name)
 //   output: one token per message `<matches>;<events>;<state>` and a final `X=ok|X=changed`
-//     events: `-` or `,`-joined `R|B:<addr-hex>:<tags>[:<value>]*`  (R = reply, B = broadcast)
+//     events: `-` or `,`-joined `R|B:<addr-hex>:<tags>[:<value>]*`  (R = reply, B = broadcast), as a
+//             sorted multiset (the property fixes no order); integer tags are printed as `i`
+//             (`c` and `i` carry the same value); broadcasts at the port's own address are
+//             left out when the message did not change the stored value (the property speaks
+//             about changes only)
 //     state : `,`-joined element values of the port's own field (ints decimal, floats hex8,
-//             bools 0/1, strings = hex of the whole buffer)
-//     X     : whether any byte of the object outside the port's own field differs from a
-//             freshly constructed object (guards included)
+//             bools 0/1, strings = hex of the C string in the buffer, `!<hex of the buffer>`
+//             when the buffer holds no terminator)
+//     X     : whether any byte of the whole object tree outside the port's own elements differs
+//             from a freshly constructed one (guards included)
 #include "common.h"
 #include <rtosc/rtosc.h>
 #include <rtosc/ports.h>
 #include <rtosc/port-sugar.h>
 #include <cctype>
 #include <cstddef>
+#include <algorithm>
 #include <new>
 using namespace vh;
 
 enum Colour : int { RED, BLUE, GREEN, TEAL };
+
+struct Voice {
+    int note;
+    bool enabled;
+    char tag;
+    float gain;
+};
+
+#define LONGNAME abcdefghijabcdefghijabcdefghijabcdefghijabcdefghijabcdefghijabcdefghijabcdefghijabcdefghijabcdefghijabcdefghijabcdefghijabcdefghijabcdefghijabcdefghijabcdefghijabcdefghijabcdefghijabcdefghijabcdefghij
 
 struct Obj {
     // rParam family (rParamCb)
@@ -83,6 +100,37 @@ struct Obj {
     int g17;
     int v9[3];
     int g18;
+    // rOptions() of every arity
+    int on1, on2, on3, on4, on5, on6, on7, on8, on9, on10, on11, on12, on13, on14, on15, on16, on17, on18, on19, on20,
+        on21, on22, on23, on24;
+    int g19;
+    // rCOptionCb with its own get/set code, rArrayTCbMember
+    short ocs;
+    Voice voices[4];
+    int g20;
+    // arrays with more than 256 elements
+    int abig[300];
+    int g21;
+    bool tbig[260];
+    int g22;
+    float fbig[257];
+    int g23;
+    // long string
+    char strbig[600];
+    int g24;
+    // declared bounds outside the type of the callback's variable
+    int aib[4];
+    char aicb[3];
+    short psb;
+    unsigned char pucn;
+    char pcb;
+    int g25;
+    // metadata with entries of other shapes in front of the range
+    float pfs, pfd;
+    int pis, pos;
+    float afsp[3];
+    int ais[2];
+    int g26;
 
     Obj()
     {
@@ -107,10 +155,50 @@ struct Obj {
         aoe[0] = TEAL; aoe[1] = RED;
         a2x[0] = 1.f; a2x[1] = 2.f; a2x[2] = 3.f;
         v9[0] = 9; v9[1] = 8; v9[2] = 7;
+        on1 = on2 = on3 = on4 = on5 = on6 = on7 = on8 = on9 = on10 = on11 = on12 = 0;
+        on13 = on14 = on15 = on16 = on17 = on18 = on19 = on20 = on21 = on22 = on23 = on24 = 0;
+        ocs = 1;
+        for(int i = 0; i < 4; ++i) { voices[i].note = 60 + i; voices[i].enabled = i & 1; voices[i].tag = 'a' + i; voices[i].gain = 0.5f * i; }
+        for(int i = 0; i < 300; ++i) abig[i] = i % 101;
+        for(int i = 0; i < 260; ++i) tbig[i] = (i % 3) == 0;
+        for(int i = 0; i < 257; ++i) fbig[i] = 0.125f * (i % 16);
+        memset(strbig, 0, sizeof(strbig)); strcpy(strbig, "long");
+        aib[0] = 0; aib[1] = 150; aib[2] = 100; aib[3] = -7;
+        aicb[0] = 0; aicb[1] = -100; aicb[2] = 127;
+        psb = 12345; pucn = 200; pcb = -100;
+        pfs = 1.0f; pfd = 0.5f; pis = 3; pos = 1;
+        afsp[0] = 0.f; afsp[1] = 0.5f; afsp[2] = -1.f;
+        ais[0] = 1; ais[1] = 2;
+        g19 = g20 = g21 = g22 = g23 = g24 = g25 = g26 = 0x5a5a5a5a;
         g0 = g1 = g2 = g3 = g4 = g5 = g6 = g6b = g7 = g8 = g9 = g10 = g11 = g12 = g13 = g14 = g15 = g16 = g17 = g18 = 0x5a5a5a5a;
     }
     static const rtosc::Ports ports;
 };
+
+#define V1 v0
+#define V2 V1, v1
+#define V3 V2, v2
+#define V4 V3, v3
+#define V5 V4, v4
+#define V6 V5, v5
+#define V7 V6, v6
+#define V8 V7, v7
+#define V9 V8, v8
+#define V10 V9, v9
+#define V11 V10, v10
+#define V12 V11, v11
+#define V13 V12, v12
+#define V14 V13, v13
+#define V15 V14, v14
+#define V16 V15, v15
+#define V17 V16, v16
+#define V18 V17, v17
+#define V19 V18, v18
+#define V20 V19, v19
+#define V21 V20, v20
+#define V22 V21, v21
+#define V23 V22, v22
+#define V24 V23, v23
 
 #define rObject Obj
 const rtosc::Ports Obj::ports = {
@@ -158,28 +246,94 @@ const rtosc::Ports Obj::ports = {
     rArrayOption(aoe, 2, rOptions(red, blue, green, teal), "enum option array, no bounds"),
     rArrayF(a2x, 3, rLinear(0, 10), "digit inside the name"),
     rArrayI(v9, 3, rLinear(0, 100), "digit at the end of the name"),
+    // rOptions() with 1..24 symbols (one expansion table entry per arity)
+    rOption(on1, rOptions(V1), "arity 1"), rOption(on2, rOptions(V2), "arity 2"), rOption(on3, rOptions(V3), "arity 3"),
+    rOption(on4, rOptions(V4), "arity 4"), rOption(on5, rOptions(V5), "arity 5"), rOption(on6, rOptions(V6), "arity 6"),
+    rOption(on7, rOptions(V7), "arity 7"), rOption(on8, rOptions(V8), "arity 8"), rOption(on9, rOptions(V9), "arity 9"),
+    rOption(on10, rOptions(V10), "arity 10"), rOption(on11, rOptions(V11), "arity 11"), rOption(on12, rOptions(V12), "arity 12"),
+    rOption(on13, rOptions(V13), "arity 13"), rOption(on14, rOptions(V14), "arity 14"), rOption(on15, rOptions(V15), "arity 15"),
+    rOption(on16, rOptions(V16), "arity 16"), rOption(on17, rOptions(V17), "arity 17"), rOption(on18, rOptions(V18), "arity 18"),
+    rOption(on19, rOptions(V19), "arity 19"), rOption(on20, rOptions(V20), "arity 20"), rOption(on21, rOptions(V21), "arity 21"),
+    rOption(on22, rOptions(V22), "arity 22"), rOption(on23, rOptions(V23), "arity 23"), rOption(on24, rOptions(V24), "arity 24"),
+    // the callback macros that no port macro instantiates
+    {"ocs::i:c:S", rProp(parameter) rProp(enumerated) rOptions(x, y, z) rLinear(0, 2) rDoc("rCOptionCb, short storage"), NULL,
+     rCOptionCb(obj->ocs, obj->ocs = (short)var)},
+    {"vm#4::T:F", rProp(parameter) rDoc("rArrayTCbMember"), NULL, rArrayTCbMember(voices, enabled)},
+    // more than 256 elements
+    rArrayI(abig, 300, rLinear(0, 100), "three-digit indices"),
+    rArrayT(tbig, 260, "toggle array"),
+    rArrayF(fbig, 257, rLinear(-4, 4), "float array"),
+    rString(strbig, 600, "long string"),
+    // declared bounds that the callback's variable (char / short / unsigned char) cannot hold
+    rArrayI(aib, 4, rLinear(0, 200), "maximum above 127"),
+    rArrayI(aicb, 3, rLinear(-100, 200), "char storage, maximum above 127"),
+    rParamI(psb, rLinear(-40000, 40000), "short storage, bounds outside short"),
+    {"pucn::c", rProp(parameter) rMap(min, -10) rMap(max, 300) rDoc("unsigned char, negative minimum"), NULL, rParamCb(pucn)},
+    {"pcb::c", rProp(parameter) rMap(min, -200) rMap(max, 100) rDoc("char, minimum below -128"), NULL, rParamCb(pcb)},
+    // other metadata entries in front of the range
+    rParamF(pfs, rSpecial(disable), rLinear(0, 2.5), "rSpecial first"),
+    rParamF(pfd, rShort("dec"), rMap(unit, Hz), rDefault(0.5), rCentered, rLinear(-2, 2), "decorated"),
+    rParamI(pis, rSpecial(random), rMap(max, 16), "rSpecial, upper bound only"),
+    rOption(pos, rSpecial(off), rOptions(x, y, z), rLinear(0, 2), "rSpecial in front of the map"),
+    rArrayF(afsp, 3, rNoDefaults, rSpecial(disable), rLinear(-1, 1), "rSpecial"),
+    rArrayI(ais, 2, rSpecial(x), rShort("s"), rLinear(-3, 3), "rSpecial"),
+};
+#undef rObject
+
+// a table without array ports: Ports::dispatch takes its hashed branch
+struct Flat {
+    char hc;
+    float hf;
+    int hi;
+    int ho;
+    bool ht;
+    char hs[8];
+    int g0;
+    Flat()
+    {
+        hc = 64; hf = 0.25f; hi = 2; ho = 3; ht = true;
+        memset(hs, 0, sizeof(hs)); strcpy(hs, "flat");
+        g0 = 0x5a5a5a5a;
+    }
+    static const rtosc::Ports ports;
+};
+#define rObject Flat
+const rtosc::Ports Flat::ports = {
+    rParam(hc, "char parameter"),
+    rParamF(hf, rLinear(-1, 1), "float"),
+    rParamI(hi, rLinear(-5, 5), "int"),
+    rOption(ho, rOptions(red, blue, green, teal), rLinear(0, 3), "option"),
+    rToggle(ht, "toggle"),
+    rString(hs, 8, "string"),
 };
 #undef rObject
 
 struct Top {
     Obj sub;
+    Obj LONGNAME;
+    Flat flat;
     static const rtosc::Ports ports;
 };
 #define rObject Top
 const rtosc::Ports Top::ports = {
     rRecur(sub, "the object"),
+    rRecur(LONGNAME, "the same object type below a long address"),
+    rRecur(flat, "the table without array ports"),
 };
 #undef rObject
 
 // ---------------------------------------------------------------------------------
 struct Desc {
     const char *id;
-    char kind;            // P F I O T S  f t i o
+    int tbl;              // 0 = Obj::ports, 1 = Flat::ports
+    char kind;            // P F I O T S  f t i o m
     const char *storage;  // i8 u8 i16 i32 f32 b s
-    size_t off, elem, len;
+    size_t off, elem, len, stride;   // element k lives at off + k*stride, elem bytes
 };
-#define D(name, kind, st) {#name, kind, st, offsetof(Obj, name), sizeof(((Obj *)0)->name), 1}
-#define DA(name, kind, st) {#name, kind, st, offsetof(Obj, name), sizeof(((Obj *)0)->name[0]), sizeof(((Obj *)0)->name) / sizeof(((Obj *)0)->name[0])}
+#define D(name, kind, st) {#name, 0, kind, st, offsetof(Obj, name), sizeof(((Obj *)0)->name), 1, sizeof(((Obj *)0)->name)}
+#define DA(name, kind, st) {#name, 0, kind, st, offsetof(Obj, name), sizeof(((Obj *)0)->name[0]), sizeof(((Obj *)0)->name) / sizeof(((Obj *)0)->name[0]), sizeof(((Obj *)0)->name[0])}
+#define H(name, kind, st) {#name, 1, kind, st, offsetof(Flat, name), sizeof(((Flat *)0)->name), 1, sizeof(((Flat *)0)->name)}
+#define HA(name, kind, st) {#name, 1, kind, st, offsetof(Flat, name), sizeof(((Flat *)0)->name[0]), sizeof(((Flat *)0)->name) / sizeof(((Flat *)0)->name[0]), sizeof(((Flat *)0)->name[0])}
 static const Desc descs[] = {
     D(pc, 'P', "i8"), D(puc, 'P', "u8"), D(pcn, 'P', "i8"), D(pcu, 'P', "i8"), D(pcs, 'P', "i16"),
     D(pf0, 'F', "f32"), D(pf1, 'F', "f32"), D(pf2, 'F', "f32"), D(pf3, 'F', "f32"), D(pf4, 'F', "f32"), D(pf5, 'F', "f32"),
@@ -193,6 +347,16 @@ static const Desc descs[] = {
     DA(ai, 'i', "i32"), DA(aic, 'i', "i8"), DA(ail, 'i', "i32"),
     DA(ao, 'o', "i32"), DA(aoe, 'o', "i32"),
     DA(a2x, 'f', "f32"), DA(v9, 'i', "i32"),
+    D(on1, 'O', "i32"), D(on2, 'O', "i32"), D(on3, 'O', "i32"), D(on4, 'O', "i32"), D(on5, 'O', "i32"), D(on6, 'O', "i32"),
+    D(on7, 'O', "i32"), D(on8, 'O', "i32"), D(on9, 'O', "i32"), D(on10, 'O', "i32"), D(on11, 'O', "i32"), D(on12, 'O', "i32"),
+    D(on13, 'O', "i32"), D(on14, 'O', "i32"), D(on15, 'O', "i32"), D(on16, 'O', "i32"), D(on17, 'O', "i32"), D(on18, 'O', "i32"),
+    D(on19, 'O', "i32"), D(on20, 'O', "i32"), D(on21, 'O', "i32"), D(on22, 'O', "i32"), D(on23, 'O', "i32"), D(on24, 'O', "i32"),
+    D(ocs, 'O', "i16"),
+    {"vm", 0, 'm', "b", offsetof(Obj, voices) + offsetof(Voice, enabled), sizeof(bool), 4, sizeof(Voice)},
+    DA(abig, 'i', "i32"), DA(tbig, 't', "b"), DA(fbig, 'f', "f32"), DA(strbig, 'S', "s"),
+    DA(aib, 'i', "i32"), DA(aicb, 'i', "i8"), D(psb, 'I', "i16"), D(pucn, 'P', "u8"), D(pcb, 'P', "i8"),
+    D(pfs, 'F', "f32"), D(pfd, 'F', "f32"), D(pis, 'I', "i32"), D(pos, 'O', "i32"), DA(afsp, 'f', "f32"), DA(ais, 'i', "i32"),
+    H(hc, 'P', "i8"), H(hf, 'F', "f32"), H(hi, 'I', "i32"), H(ho, 'O', "i32"), H(ht, 'T', "b"), HA(hs, 'S', "s"),
 };
 static const size_t ndescs = sizeof(descs) / sizeof(descs[0]);
 
@@ -206,7 +370,7 @@ static const Desc *find_desc(const std::string &id)
 static const rtosc::Port *find_port(const Desc &d)
 {
     size_t n = strlen(d.id);
-    for(const rtosc::Port &p : Obj::ports)
+    for(const rtosc::Port &p : (d.tbl ? Flat::ports : Obj::ports))
         if(!strncmp(p.name, d.id, n) && (p.name[n] == ':' || p.name[n] == '#'))
             return &p;
     return NULL;
@@ -227,15 +391,21 @@ static std::string hex32(uint32_t v)
     return b;
 }
 
-static std::string state_of(const Desc &d, const Obj &o)
+// `o` = the object (Obj or Flat) the port belongs to; raw = the whole buffer of a string
+static std::string state_of(const Desc &d, const void *o, bool raw = false)
 {
-    const unsigned char *base = (const unsigned char *)&o + d.off;
-    if(d.kind == 'S') return hex(base, d.len);
+    const unsigned char *base = (const unsigned char *)o + d.off;
+    if(d.kind == 'S') {
+        if(raw) return hex(base, d.len);
+        const void *z = memchr(base, 0, d.len);
+        if(!z) return "!" + hex(base, d.len);
+        return hex(base, (const unsigned char *)z - base);
+    }
     std::string s;
+    std::string st = d.storage;
     for(size_t i = 0; i < d.len; ++i) {
-        const unsigned char *p = base + i * d.elem;
+        const unsigned char *p = base + i * d.stride;
         if(i) s += ",";
-        std::string st = d.storage;
         if(st == "f32") { uint32_t v; memcpy(&v, p, 4); s += hex32(v); }
         else if(st == "b") s += (*(const bool *)p) ? "1" : "0";
         else if(st == "i8") s += std::to_string((int)*(const signed char *)p);
@@ -246,52 +416,81 @@ static std::string state_of(const Desc &d, const Obj &o)
     return s;
 }
 
+// did the stored value change?  floats: IEEE `!=` per element; everything else: the printed state
+static bool changed(const Desc &d, const void *before, const void *after)
+{
+    if(std::string(d.storage) == "f32") {
+        for(size_t i = 0; i < d.len; ++i) {
+            float a, b;
+            memcpy(&a, (const unsigned char *)before + d.off + i * d.stride, 4);
+            memcpy(&b, (const unsigned char *)after + d.off + i * d.stride, 4);
+            if(a != b) return true;
+        }
+        return false;
+    }
+    return state_of(d, before) != state_of(d, after);
+}
+
 struct Log : rtosc::RtData {
-    std::string ev;
+    std::vector<std::pair<std::string, std::string>> ev;    // (address, printed event)
     void add(char what, const char *msg)
     {
-        if(!ev.empty()) ev += ",";
-        ev += what;
-        ev += ":" + hexs(msg) + ":";
-        const char *tags = rtosc_argument_string(msg);
-        ev += *tags ? tags : "-";
+        std::string e;
+        e += what;
+        e += ":" + hexs(msg) + ":";
+        std::string tags = rtosc_argument_string(msg);
+        for(char &c : tags) if(c == 'c') c = 'i';
+        e += tags.empty() ? "-" : tags;
         unsigned n = rtosc_narguments(msg);
         for(unsigned i = 0; i < n; ++i) {
             char t = rtosc_type(msg, i);
             rtosc_arg_t a = rtosc_argument(msg, i);
             switch(t) {
-            case 'i': case 'c': ev += ":" + std::to_string(a.i); break;
-            case 'f': { uint32_t v; memcpy(&v, &a.f, 4); ev += ":" + hex32(v); break; }
-            case 's': case 'S': ev += ":" + hexs(a.s); break;
+            case 'i': case 'c': e += ":" + std::to_string(a.i); break;
+            case 'f': { uint32_t v; memcpy(&v, &a.f, 4); e += ":" + hex32(v); break; }
+            case 's': case 'S': e += ":" + hexs(a.s); break;
             case 'T': case 'F': break;
-            default: ev += ":?"; break;
+            default: e += ":?"; break;
             }
         }
+        ev.push_back(std::make_pair(std::string(msg), e));
     }
     void reply(const char *msg) override { add('R', msg); }
     void broadcast(const char *msg) override { add('B', msg); }
     using rtosc::RtData::reply;
     using rtosc::RtData::broadcast;
+
+    std::string events(const std::string &loc, bool value_changed) const
+    {
+        std::vector<std::string> out;
+        for(const auto &e : ev)
+            if(value_changed || !(e.second[0] == 'B' && e.first == loc))
+                out.push_back(e.second);
+        std::sort(out.begin(), out.end());
+        std::string s;
+        for(const std::string &e : out) s += (s.empty() ? "" : ",") + e;
+        return s.empty() ? "-" : s;
+    }
 };
 
-static std::string describe(const Desc &d, const Obj &o)
+static std::string describe(const Desc &d, const void *o)
 {
     const rtosc::Port *p = find_port(d);
     std::ostringstream os;
     os << d.id << " " << d.kind << " " << d.storage << " " << d.len << " ";
     if(!p) { os << "? ? ?"; return os.str(); }
-    os << hexs(p->name) << " " << hex((const unsigned char *)p->metadata, meta_len(p->metadata)) << " " << state_of(d, o);
+    os << hexs(p->name) << " " << hex((const unsigned char *)p->metadata, meta_len(p->metadata)) << " " << state_of(d, o, true);
     return os.str();
 }
 
 // builds one message; returns false on a malformed token
 static bool build(const std::string &tok, const std::string &prefix, const std::string &id,
-                  std::vector<char> &buf, std::vector<bytes> &keep)
+                  std::vector<char> &buf, std::vector<bytes> &keep, std::string &path)
 {
     std::string idx, rest = tok;
     size_t at = tok.find('@');
     if(at != std::string::npos) { idx = tok.substr(0, at); rest = tok.substr(at + 1); }
-    std::string path = prefix + id + idx;
+    path = prefix + id + idx;
     std::string tags;
     std::vector<rtosc_arg_t> args;
     keep.clear();
@@ -332,29 +531,49 @@ static bool build(const std::string &tok, const std::string &prefix, const std::
 static std::string step(const std::string &line)
 {
     auto w = words(line);
-    if(w.size() < 8 || (w[0] != "R" && w[0] != "N")) return "bad-op";
+    if(w.size() < 8) return "bad-op";
     const Desc *d = find_desc(w[1]);
-    if(!d) return "bad-op";
+    bytes pb;
+    if(!d || !unhex(w[0], pb)) return "bad-op";
+    std::string prefix(pb.begin(), pb.end());
 
-    // the object lives in an exact-size heap block, next to a reference copy
+    // the object tree lives in an exact-size heap block, next to a reference copy
     void *mem = calloc(1, sizeof(Top)), *refmem = calloc(1, sizeof(Top));
     Top *top = new(mem) Top;
     Top *ref = new(refmem) Top;
 
+    // which object, and through which table is it reached?
+    void *obj = NULL, *root = NULL;
+    const rtosc::Ports *ports = NULL;
+    if(prefix == "/") {
+        obj = d->tbl ? (void *)&top->flat : (void *)&top->sub;
+        root = obj;
+        ports = d->tbl ? &Flat::ports : &Obj::ports;
+    } else {
+        root = top;
+        ports = &Top::ports;
+        if(prefix == "/sub/" && !d->tbl) obj = &top->sub;
+        else if(prefix == "/" STRINGIFY(LONGNAME) "/" && !d->tbl) obj = &top->LONGNAME;
+        else if(prefix == "/flat/" && d->tbl) obj = &top->flat;
+    }
+    if(!obj) { top->~Top(); ref->~Top(); free(mem); free(refmem); return "bad-op"; }
+
     // the description tokens on the op line must be this tree's table
     {
-        std::string mine = describe(*d, top->sub), theirs = w[1];
+        std::string mine = describe(*d, obj), theirs = w[1];
         for(int i = 2; i < 8; ++i) theirs += " " + w[i];
-        if(mine != theirs) { free(mem); free(refmem); return "table-mismatch " + mine; }
+        if(mine != theirs) { top->~Top(); ref->~Top(); free(mem); free(refmem); return "table-mismatch " + mine; }
     }
 
-    bool nested = w[0] == "N";
     std::string out;
-    char loc[256];
+    static char loc[1024];
+    void *snap = malloc(sizeof(Top));
+    size_t objoff = (unsigned char *)obj - (unsigned char *)top;
     for(size_t k = 8; k < w.size(); ++k) {
         std::vector<char> buf;
         std::vector<bytes> keep;
-        if(!build(w[k], nested ? "/sub/" : "/", d->id, buf, keep)) { out += "bad-msg "; continue; }
+        std::string path;
+        if(!build(w[k], prefix, d->id, buf, keep, path)) { out += "bad-msg "; continue; }
         // message in an exact-size heap block
         bytes mb(buf.begin(), buf.end());
         Exact m(mb);
@@ -362,16 +581,22 @@ static std::string step(const std::string &line)
         memset(loc, 0, sizeof loc);
         log.loc = loc;
         log.loc_size = sizeof loc;
-        log.obj = nested ? (void *)top : (void *)&top->sub;
-        (nested ? Top::ports : Obj::ports).dispatch(m.c(), log, true);
-        out += std::to_string(log.matches) + ";" + (log.ev.empty() ? std::string("-") : log.ev) + ";" + state_of(*d, top->sub) + " ";
+        log.obj = root;
+        memcpy(snap, top, sizeof(Top));
+        ports->dispatch(m.c(), log, true);
+        bool ch = changed(*d, (unsigned char *)snap + objoff, obj);
+        out += std::to_string(log.matches) + ";" + log.events(path, ch) + ";" + state_of(*d, obj) + " ";
     }
-    // everything outside the port's own field must be untouched
+    free(snap);
+    // everything outside the port's own elements must be untouched
     bool same = true;
-    const unsigned char *a = (const unsigned char *)&top->sub, *b = (const unsigned char *)&ref->sub;
-    size_t lo = d->off, hi = d->off + d->elem * d->len;
-    for(size_t i = 0; i < sizeof(Obj); ++i)
-        if((i < lo || i >= hi) && a[i] != b[i]) same = false;
+    const unsigned char *a = (const unsigned char *)top, *b = (const unsigned char *)ref;
+    std::vector<bool> own(sizeof(Top), false);
+    for(size_t k = 0; k < d->len; ++k)
+        for(size_t j = 0; j < d->elem; ++j)
+            own[objoff + d->off + k * d->stride + j] = true;
+    for(size_t i = 0; i < sizeof(Top); ++i)
+        if(!own[i] && a[i] != b[i]) same = false;
     out += same ? "X=ok" : "X=changed";
     top->~Top();
     ref->~Top();
@@ -384,7 +609,8 @@ int main(int argc, char **argv)
 {
     if(argc >= 2 && !strcmp(argv[1], "--table")) {
         Obj o;
-        for(size_t i = 0; i < ndescs; ++i) puts(describe(descs[i], o).c_str());
+        Flat f;
+        for(size_t i = 0; i < ndescs; ++i) puts(describe(descs[i], descs[i].tbl ? (void *)&f : (void *)&o).c_str());
         return 0;
     }
     return run_lines(argc, argv, step);
